@@ -466,3 +466,64 @@ func rbfJobs(thorough bool) []job {
 	}
 	return jobs
 }
+
+// rbfDustJobs closes the class "a party prices an output with the wrong script /
+// the two parties disagree on whether an output is dust": every ordered pair of
+// wire-acceptable delivery scripts with different dust limits (all pairs in
+// thorough) x each party's settled balance on every script dust limit -1/0/+1
+// (plus zero and a large value) x both openers x both roles: in every history
+// both parties make an offer, so the low party is closee in one round and closer
+// in another; it then bumps to fee 0 and the other party bumps once more.
+func rbfDustJobs(thorough bool) []job {
+	var jobs []job
+	types := quickDustTypes
+	pairs := scriptPairs(wireScriptKinds, true)
+	targets := dustTargets(wireScriptKinds)
+	dusts := [][2]int64{{200, 1300}}
+	if thorough {
+		types = chanmc.AllTypes
+		pairs = scriptPairs(wireScriptKinds, false)
+		targets = dustTargets(allScriptKinds)
+		dusts = append(dusts, [2]int64{354, 354})
+	}
+	for _, typ := range types {
+		for _, ob := range []bool{false, true} {
+			for _, cd := range dusts {
+				for _, src := range scriptDustSources(typ, ob, targets, cd) {
+					src := src
+					jobs = append(jobs, job{name: "rbfdust " + src.Name(), part: "rbf", f: func(h *harness) {
+						h.withPair(src, func(p *pair) {
+							low := 0
+							if p.gross[1] < p.gross[0] {
+								low = 1
+							}
+							for k, sc := range pairs {
+								inis := []int{k % 2}
+								if thorough {
+									inis = []int{0, 1}
+								}
+								for _, ini := range inis {
+									if h.expired() {
+										return
+									}
+									c := RbfCase{Initiator: ini, InitFee: 100, DefaultFee: [2]int64{100, 100}, FirstOffer: (k / 2) % 2,
+										Bumps: []RbfStep{{By: low, Fee: 0}, {By: 1 - low, Fee: 500}}, SA: sc[0], SB: sc[1]}
+									v := safely("rbf", func() verdict { return runRbf(p, c, nil) })
+									if v.class == "harness-error" {
+										h.harnessError(herr("%s", v.what))
+										return
+									}
+									h.record(Replay{Part: "rbf", Src: &src, Rbf: &c}, v)
+									if v.sig == "" && k == 0 {
+										h.sample("rbf", map[string]any{"source": src.Name(), "case": c, "outcome": v.class})
+									}
+								}
+							}
+						})
+					}})
+				}
+			}
+		}
+	}
+	return jobs
+}
